@@ -13,7 +13,9 @@ def host_cases(rng, n):
     while len(out) < n:
         r = rng.random()
         scheme = rng.choice([b"http", b"https", b"ws", b"ftp", b"file", b"sc", b"foo"])
-        if r < 0.4:
+        if r < 0.1:
+            h = genlib.numberish_host(rng)
+        elif r < 0.4:
             h = genlib.gen_ipv4(rng)
         elif r < 0.7:
             h = genlib.gen_ipv6(rng)
